@@ -61,7 +61,7 @@ def hs_offsets(ctx):
     rng = ctx.rng
     th = ctx.tier == "thorough"
     exts = [TokenExtractor(r"(a*é?)", IdToken.from_match), TokenExtractor(r"[^a-z]?(b|€+)", IdToken.from_match)]
-    texts = ["aé€\U0001d518b", "ééa", "€€", "b\U0001f600a", "", "abc"]
+    texts = ["aé€\U0001d518b", "ééa", "€€", "b\U0001f600a", "", "abc", "¿ÿa\ufffd", "\ufeffa¿b"]
     cases = []
     for text in texts:
         nb = len(text.encode("utf8"))
@@ -135,8 +135,9 @@ def engine(ctx):
     os.makedirs(cache, exist_ok=True)
     hs = HyperscanTokenizer(cache_dir=cache)
     ref = Tokenizer()
-    MB = ["“", "”", "’", "—", "–", "é", "ñ", "§", "¶", "ü", "‘"]
-    docs = ["“1 U.S. 1”", "é1 U.S. 1", "1 U.S. 1é", "See “Foo v. Bar, 1 U.S. 1” at 5.", "42 U.S.C. § 1983", "¶ 5, 1 F.3d 2—3",
+    MB = ["“", "”", "’", "—", "–", "é", "ñ", "§", "¶", "ü", "‘", "¿", "ÿ", "\ufffd", "\ufeff", "乿", "\u07ff", "\U0001f600", "߿"]
+    docs = ["¿Qué? ÿ See 1 U.S. 1 and id. at 5.", "\ufeff\ufffd Foo v. Bar, 1 F.3d 2 (1999).", "乿亿 see 1 U.S. 1",
+            "“1 U.S. 1”", "é1 U.S. 1", "1 U.S. 1é", "See “Foo v. Bar, 1 U.S. 1” at 5.", "42 U.S.C. § 1983", "¶ 5, 1 F.3d 2—3",
             "Id. at 5” and “supra, at 6"]
     for _ in range(200 if th else 30):
         d = textgen.document(rng, n_events=rng.choice([1, 2, 3]), pool=["U.S.", "F.3d", "S. Ct.", "Cal. 4th", "N.E.2d"])
